@@ -179,7 +179,13 @@ func registerCodecs(m map[string]Intrinsic) {
 	m["(*compress/gzip.Reader).Reset"] = func(e *Exec, st *State, ci *CallInfo) Outcome {
 		p, mv := e.model(st, ci.Args[0], "gzip.Reader")
 		st.setObj(p.Obj, mv.with("src", ci.Args[1]))
-		return val(nilIface)
+		// the source may not be a gzip stream: Reset fails or succeeds
+		k := e.codecSeq(st, "gzipreset")
+		failV := e.C.Var(fmt.Sprintf("gzipreset!%d!err", k), 0)
+		return Outcome{Kind: OutAlts, Exhaustive: true, Alts: []AltOut{
+			{Cond: e.C.Not(failV), Val: nilIface},
+			{Cond: failV, ValFn: func(s2 *State) (Value, bool) { return e.errorValue(s2, "gzip: invalid header"), true }, Tag: "gzipreset!err"},
+		}}
 	}
 	m["(*compress/gzip.Reader).Close"] = func(e *Exec, st *State, ci *CallInfo) Outcome { return val(nilIface) }
 	m["compress/zlib.NewReader"] = func(e *Exec, st *State, ci *CallInfo) Outcome {
